@@ -75,6 +75,23 @@ func applyMut(doc map[string]any, m jmut) bool {
 		obj[m.F] = -3.0
 	case "fraction":
 		obj[m.F] = 1.5
+	case "fine":
+		// values with more than nine decimals and of size 1e-12: exact in float64, not fixed points of any decimal rounding
+		switch v := cur.(type) {
+		case float64:
+			obj[m.F] = v*1.0000000001234 + 1e-11
+		case []any:
+			if len(v) != 2 {
+				return false
+			}
+			a, ok := v[0].(float64)
+			if !ok {
+				return false
+			}
+			obj[m.F] = []any{a + 0.123456789012, 3e-12}
+		default:
+			return false
+		}
 	case "idAlpha":
 		obj[m.F] = "abc"
 	case "idFloat":
